@@ -1,10 +1,15 @@
 pub mod known;
 
+pub mod c01;
+pub mod c04;
+pub mod contain;
 pub mod c05;
 pub mod c07;
 pub mod c08;
 pub mod c09;
 pub mod c10;
+pub mod c11;
+pub mod c12;
 pub mod c15;
 pub mod c16;
 pub mod c17;
@@ -20,11 +25,15 @@ use serde_json::Value;
 pub fn run(id: &str, tier: Tier, seed: u64, known: &[Known]) -> Option<Report> {
     let _ = known;
     Some(match id {
+        "C01" => c01::run(tier, seed),
+        "C04" => c04::run(tier, seed),
         "C05" => c05::run(tier, seed),
         "C07" => c07::run(tier, seed),
         "C08" => c08::run(tier, seed),
         "C09" => c09::run(tier, seed),
         "C10" => c10::run(tier, seed),
+        "C11" => c11::run(tier, seed),
+        "C12" => c12::run(tier, seed),
         "C15" => c15::run(tier, seed),
         "C16" => c16::run(tier, seed),
         "C17" => c17::run(tier, seed),
@@ -37,11 +46,15 @@ pub fn run(id: &str, tier: Tier, seed: u64, known: &[Known]) -> Option<Report> {
 
 pub fn replay(id: &str, section: &str, case: &Value) -> Option<Result<(), String>> {
     match id {
+        "C01" => c01::replay(section, case),
+        "C04" => c04::replay(section, case),
         "C05" => c05::replay(section, case),
         "C07" => c07::replay(section, case),
         "C08" => c08::replay(section, case),
         "C09" => c09::replay(section, case),
         "C10" => c10::replay(section, case),
+        "C11" => c11::replay(section, case),
+        "C12" => c12::replay(section, case),
         "C15" => c15::replay(section, case),
         "C16" => c16::replay(section, case),
         "C17" => c17::replay(section, case),
